@@ -465,6 +465,15 @@ func simplifyPhis(newPhis BlockMap[[]newPhi]) {
 			}
 		}
 	}
+
+	// 'live' was only borrowed to mark the phis that have been replaced.
+	// Reset it, so that the liveness pass that follows starts from scratch
+	// and removes the replaced phis, which no longer have any referrers.
+	for _, npList := range newPhis {
+		for _, np := range npList {
+			np.phi.live = false
+		}
+	}
 }
 
 type BlockSet struct {
